@@ -1,4 +1,4 @@
-import CardVerif.Spec.Legality
+import CardModel.Spec.Legality
 import CardVerif.Proofs.Protocol
 /-!
 # C03 — the betting protocol: who acts, when a round closes, when the hand ends
